@@ -45,7 +45,8 @@ Consume ==
     /\ LET e == Trace[l + 1] IN
        CASE e.ev = "reset" ->
               /\ req' = e.req
-              /\ store' = InitStore
+              /\ store' = IF "SeedTx" \in DOMAIN e.design /\ ~e.design.SeedTx
+                          THEN <<SeedLog(0, "set", -1, "M", "A", <<>>)>> ELSE InitStore
               /\ resp' = [p \in DOMAIN e.req |-> NoResp(e.req[p])]
               /\ events' = <<>> /\ crashes' = 0 /\ ended' = FALSE /\ hashBad' = FALSE /\ hung' = FALSE
          [] e.ev = "persist" ->
